@@ -23,7 +23,7 @@ ID = 'C20'
 NEEDS_C = True
 LEVEL = 'exploration'
 RULE = ('generated programs (block-structured main loops with IN A,(n)/IN r,(C)/INI/INIR, EI/DI, HALT, IM 0/1/2 with a supplied IM 2 handler or the ROM one, '
-        'DD/FD chains, LD A,I/R, LD R,A, self-modification, 128K paging and AY writes; boundary-directed micro loops; random bytes) on 48K and 128K start states are '
+        'DD/FD chains, LD A,I/R, LD R,A, self-modification, 128K paging (incl. lock-then-write histories of 0x7FFD with bank/ROM-dependent reads) and AY writes; boundary-directed micro loops; random bytes) on 48K and 128K start states are '
         'recorded for F frames (F 2..40; frame length from 4 T to the real frame) by the reference recorder driving the Python simulator (plain or contended) or refz80; '
         'the recording is written as RZX with a z80 (v1/v2/v3) or szx snapshot, compressed or not, with or without repeated-frame markers, in one or several input '
         'recording blocks (with or without intermediate snapshots). A case is one comparison: (recording, full play with C / Python / other free flag values), '
@@ -478,7 +478,8 @@ def run_case(shard, case, asan=False, verbose=False):
     shard.hist('frame_length_class', meta['flen_class'])
     shard.hist('layout', cfg['layout'])
     shard.hist('snapshot', ('%s v%d' % cfg['exts'][0]) if cfg['exts'][0][0] == 'z80' else 'szx')
-    for k in ('halt', 'ei', 'ldair', 'prefix', 'accepted', 'ei_blocked', 'short', 'ins', 'im2', 'outs', 'halt_wrap'):
+    for k in ('halt', 'ei', 'ldair', 'prefix', 'accepted', 'ei_blocked', 'short', 'ins', 'im2', 'outs', 'halt_wrap',
+              'locked_7ffd_writes', 'locked_7ffd_writes_other_value', 'locked_7ffd_writes_bit5_clear'):
         if rec.stats[k]:
             shard.inc('recorded:' + k, rec.stats[k])
     shard.inc('recorded:frames', len(R.frames))
@@ -489,6 +490,10 @@ def run_case(shard, case, asan=False, verbose=False):
     if sum(r[1] for r in R.repeats):
         shard.inc('recorded:repeat_markers_without_readings', sum(r[1] for r in R.repeats))
     shard.inc('recorded:recordings')
+    if meta.get('lockseq'):
+        shard.inc('recorded:recordings_with_paging_lock_history')
+    # frames (0-based) in which a write to the locked paging port with another value happened after the lock was set
+    lock_frame = rec.lock_frame if rec.stats['locked_7ffd_writes_other_value'] else None
     # ---- outside what the convention defines
     if rec.ambiguous:
         shard.skip(rec.ambiguous[0])
@@ -609,6 +614,8 @@ def run_case(shard, case, asan=False, verbose=False):
         shard.case((digest, 'resume', k, flags, py1, py2), nontrivial)
         if R.frames[k - 1].last != 'other' or R.frames[k - 1].accepted:
             shard.inc('observed:stop_at_special_boundary')
+        if lock_frame is not None and k > lock_frame:
+            shard.inc('observed:stop_after_paging_lock')
         if d:
             fail('stop at frame %d of %d (%s), dump .rzx, play the dump (%s): final state differs from uninterrupted playback (flags %d%s): %s' % (
                 k, F, 'Python' if py1 else 'C', 'Python' if py2 else 'C', flags, ', --cmio' if cmio else '', d[:6]), {'k': k})
@@ -660,7 +667,8 @@ def finalize(agg, tier):
     probs = []
     for k, n in (('monitor:full_plays', 20), ('monitor:c_vs_python', 10), ('monitor:stop_points', 100), ('monitor:rzxinfo_listings', 100),
                  ('monitor:alt_flag_plays', 5), ('recorded:halt', 5), ('recorded:ei', 5), ('recorded:ldair', 3), ('recorded:prefix', 3),
-                 ('recorded:accepted', 50), ('recorded:ins', 100), ('recorded:recordings_with_repeated_frames', 3), ('observed:stop_at_special_boundary', 50)):
+                 ('recorded:accepted', 50), ('recorded:ins', 100), ('recorded:recordings_with_repeated_frames', 3),
+                 ('recorded:locked_7ffd_writes_other_value', 20), ('recorded:locked_7ffd_writes_bit5_clear', 10), ('observed:stop_after_paging_lock', 30), ('observed:stop_at_special_boundary', 50)):
         if c.get(k, 0) < n:
             probs.append('%s = %d (< %d): the workload did not reach what the check decides on' % (k, c.get(k, 0), n))
     return probs
